@@ -224,8 +224,11 @@ impl Property for C07 {
                 let seed: u64 = parts[1].parse().unwrap_or(0);
                 let mut r = Rng::new(seed);
                 let deep = parts[0] == "deep";
+                // one program in three draws its names from the built-in constants in both of
+                // their spellings (uses of them, and declarations that shadow them)
+                let names = if seed % 3 == 0 { vec!["pi", "π", "tau", "τ", "euler", "ℇ", "a", "U"] } else { vec!["a", "b", "x", "f", "pi", "U", "h", "q"] };
                 let cfg = GenCfg {
-                    names: vec!["a", "b", "x", "f", "pi", "U", "h", "q"],
+                    names,
                     qnames: vec!["q", "r", "a"],
                     max_depth: if deep { 5 } else { 3 },
                     max_stmts: if deep { 10 } else { 6 },
